@@ -37,12 +37,13 @@ if __name__ == "__main__" and sys.argv[1] == "--stored":
 if __name__ == "__main__":
     base = sys.argv[1]
     ids = sys.argv[2:] or sorted({os.path.basename(p)[:3] for p in glob.glob(base + "/C*-out")})
+    extra = {"C09": ["C19"], "C05": ["C01"], "C14": ["C04"], "C08": ["C10"], "C10": ["C01"], "C07": ["C01"], "C02": ["C01"], "C15": ["C12"]}
     results = {}
     for pid in ids:
         for i in (1, 2):
-            patch = f"{base}/{pid}-out/m{i}.diff"
+            patch = f"{base}/{pid}{os.environ.get('SUF','')}-out/m{i}.diff"
             if not os.path.exists(patch): continue
-            res = run(patch, [pid])
+            res = run(patch, [pid] + extra.get(pid, []))
             results[f"{pid}-m{i}"] = res
             print(pid, f"m{i}", json.dumps(res)[:600], flush=True)
     json.dump(results, open("/tmp/wt/eval_results.json", "w"), indent=1)
